@@ -121,7 +121,9 @@ def check(case, ctx):
         ctx.close("sparse:train-block", Z, (Knm - mu_cols) / sc2, t2, "transformed K_nm vs (K_nm - weighted column means)/scale")
         ctx.close("sparse:test-block", Zt, (Ktm - mu_cols) / sc2, t2, "transformed test block")
         if wc:
-            ctx.close("sparse:column-means-vanish", (ww[:, None] * Z).sum(0), np.zeros(Z.shape[1]), 1e-8 * max(np.abs(Z).max(), 1e-300) if not wt else 1e-8 * max(1.0, np.abs(Z).max()),
+            ctx.close("sparse:column-means-vanish", (ww[:, None] * Z).sum(0), np.zeros(Z.shape[1]),
+                      # the means cancel to eps x the magnitude of the uncentred block
+                      max(1e-8 * max(np.abs(Z).max(), 1e-300), 1e-13 * nmag) if not wt else max(1e-8 * max(1.0, np.abs(Z).max()), 1e-13 * nmag / sc2),
                       "weighted column means of the transformed training block")
             # equals the feature-space expression
             ctx.close("sparse:feature-space", Z, Knm_c / sc2, t2, "vs Gram matrix of centred features with the active set")
